@@ -914,7 +914,7 @@ def other_entry_points(run, vsim, d, quick, cfgname, fmt, data, verdicts, r):
     one of the file (which the reader models are tied to); a proper prefix that one entry point accepts and the other
     rejects is reported"""
     how = "buf" if fmt == "binary" else "str"
-    pick = [v for i, v in enumerate(verdicts) if (i % (6 if quick else 4)) == 0]
+    pick = [v for i, v in enumerate(verdicts) if (i % (8 if quick else 4)) == 0]
     p = os.path.join(d.path, "dmg.colvars.state")
     n = 0
     if fmt == "binary" and len(data) > 8:
@@ -964,7 +964,116 @@ def other_entry_points(run, vsim, d, quick, cfgname, fmt, data, verdicts, r):
     return n
 
 
+def run_sessions_with_failed_loads(run, vsim, d, quick):
+    """a host that keeps running after rejected loads: in ONE process, several damaged states are loaded (each must be
+    rejected or accepted without crashing), then the undamaged state: it must load with err=ok and the right step, and a
+    state saved afterwards must be loadable by a fresh process"""
+    r = V.rng("C11sessions")
+    for cfgname in (["base", "twin"] if quick else ["base", "twin", "grid", "eabf", "extra"]):
+        sess = {"first": 0, "pre": 6, "saves": ["text", "binary"]}
+        if cfgname != "base":
+            sess["config"] = cfgname
+        refs, chunking, rel = reference(vsim, d, sess)
+        for fmt, data in (("text", refs[0]), ("binary", refs[1])):
+            n = len(data)
+            cuts = sorted(r.sample(range(5, n), 4))
+            names = []
+            for i, c in enumerate(cuts):
+                nm = "dmg%d.colvars.state" % i
+                open(os.path.join(d.path, nm), "wb").write(data[:c])
+                names.append(nm)
+            flipped = bytearray(data); k = r.randrange(n); flipped[k] ^= 1 << r.randrange(8)
+            open(os.path.join(d.path, "dmg4.colvars.state"), "wb").write(bytes(flipped)); names.append("dmg4.colvars.state")
+            open(os.path.join(d.path, "good.colvars.state"), "wb").write(data)
+            L = ["natoms %d" % NATOMS.get(cfgname, 2)] + PRELUDE.get(cfgname, []) + ["new", "config EOF"] + CONFIGS[cfgname].strip("\n").split("\n") + ["EOF"]
+            L += ["load %s" % nm for nm in names] + ["load good.colvars.state", "save %s after.colvars.state" % fmt]
+            scn = os.path.join(d.path, "q.scn")
+            open(scn, "w").write("\n".join(L) + "\n")
+            rc, out, err = V.sh(["timeout", "-s", "KILL", "30", vsim, scn], cwd=d.path, timeout=60)
+            loads = re.findall(r"LOAD err=(\S+) it=(-?\d+)", out)
+            run.count("session-failed-loads-%s-%s" % (cfgname, fmt), True)
+            run.dist("damage:failed-loads-then-valid-state")
+            rep_ = {"kind": "load-session", "config": cfgname, "format": fmt, "cuts": cuts, "flip": k, "scenario": "\n".join(L)}
+            want_it = version_of(sess, 0 if fmt == "text" else 1)
+            if rc != 0 or len(loads) != len(names) + 1:
+                run.violation("load.crash:session-with-rejected-loads", "a session that loads %d damaged %s states (%s configuration) and then the valid one dies or hangs (rc=%d, %d of %d loads reported)"
+                              % (len(names), fmt, cfgname, rc, len(loads), len(names) + 1), rep_)
+            elif loads[-1][0] != "ok" or int(loads[-1][1]) != want_it:
+                run.violation("load.valid-state-rejected-after-damaged-loads", "after %d rejected/damaged %s loads in the same session (%s configuration) the valid state loads with err=%s it=%s (expected ok, %d)"
+                              % (len(names), fmt, cfgname, loads[-1][0], loads[-1][1], want_it), rep_)
+            else:
+                rc2, ld2 = try_load_(vsim, d, "after.colvars.state", cfgname)
+                if rc2 != 0 or not ld2 or ld2[0] != "ok" or ld2[1] != want_it:
+                    run.violation("load.state-saved-after-damaged-loads-unreadable", "the %s state saved after rejected loads and a valid load (%s configuration) does not load in a fresh process: rc=%d %s"
+                                  % (fmt, cfgname, rc2, ld2), rep_)
+            for nm in names + ["good.colvars.state", "after.colvars.state", "q.scn"]:
+                pth = os.path.join(d.path, nm)
+                if os.path.exists(pth):
+                    os.remove(pth)
+
+
+def run_large_steps_and_cross_loads(run, vsim, d, quick):
+    """(i) step numbers beyond 2^31, 2^32, 2^53 and near 2^62 through save and load, both formats, file / buffer / string: the
+    step read back must be the step written; (ii) every valid state loaded by every OTHER configuration (objects missing,
+    extra, of other kinds, other grids): no crash or hang, whatever the verdict"""
+    steps = [2**31 + 5, 2**32 + 7, 2**53 + 1, 2**62 - 9]
+    if quick:
+        steps = [2**31 + 5, 2**53 + 1]
+    for st in steps:
+        sess = {"first": st, "pre": 3, "saves": ["text", "binary"]}
+        d.put({})
+        scn = os.path.join(d.path, "r.scn")
+        open(scn, "w").write(scenario(sess, distinct=True))
+        rc, out, err = V.sh([vsim, scn], cwd=d.path, timeout=120)
+        os.remove(scn)
+        want = {0: version_of(sess, 0), 1: version_of(sess, 1)}
+        for i, (fmt, how) in enumerate((("text", "file"), ("binary", "file"), ("text", "str"), ("binary", "buf"))):
+            fi = 0 if fmt == "text" else 1
+            nm = "ref%d.colvars.state" % fi
+            run.count("large-step-%d-%s-%s" % (st, fmt, how), True)
+            run.dist("roundtrip:large-step-number")
+            if not os.path.exists(os.path.join(d.path, nm)):
+                run.violation("statefile.large-step-save-failed", "saving a %s state at step %d leaves no file (rc=%d)" % (fmt, st, rc),
+                              {"kind": "large-step", "step": st, "format": fmt})
+                continue
+            rcl, ld = try_load_(vsim, d, nm, "base", False, how)
+            if rcl != 0 or not ld or ld[0] != "ok" or ld[1] != want[fi]:
+                run.violation("statefile.large-step-roundtrip", "a %s state saved at step %d (> 2^31) and loaded from a %s gives rc=%d %s, expected err=ok it=%d"
+                              % (fmt, want[fi], {"file": "file", "str": "string", "buf": "memory buffer"}[how], rcl, ld, want[fi]),
+                              {"kind": "large-step", "step": st, "format": fmt, "how": how})
+        for fi in (0, 1):
+            pth = os.path.join(d.path, "ref%d.colvars.state" % fi)
+            if os.path.exists(pth):
+                os.remove(pth)
+    names = ["base", "grid", "extra", "eabf", "eabf_nocz", "eabf_harm", "hist", "sabf", "twin"]
+    states = {}
+    for c in names:
+        sess = {"first": 0, "pre": 6, "saves": ["text", "binary"]}
+        if c != "base":
+            sess["config"] = c
+        refs, chunking, rel = reference(vsim, d, sess)
+        states[c] = refs
+    r = V.rng("C11cross")
+    pairs = [(a, b) for a in names for b in names if a != b]
+    if quick:
+        pairs = r.sample(pairs, 12)
+    p = os.path.join(d.path, "dmg.colvars.state")
+    for a, b in pairs:
+        for fi, fmt in ((0, "text"), (1, "binary")):
+            open(p, "wb").write(states[a][fi])
+            rc, ld = try_load_(vsim, d, "dmg.colvars.state", b)
+            run.count("cross-%s-into-%s-%s" % (a, b, fmt), True)
+            run.dist("damage:state-of-another-configuration")
+            if rc >= 128 or rc == 124 or rc < 0 or ld is None:
+                run.violation("load.crash:state-of-another-configuration", "loading the valid %s state of the %s configuration in a session configured as %s kills or hangs the process (rc=%d)"
+                              % (fmt, a, b, rc), {"kind": "cross-load", "state_of": a, "into": b, "format": fmt})
+    if os.path.exists(p):
+        os.remove(p)
+
+
 def run_damage_grid(run, vsim, d, quick, model):
+    run_sessions_with_failed_loads(run, vsim, d, quick)
+    run_large_steps_and_cross_loads(run, vsim, d, quick)
     for cfgname in ("grid", "extra", "eabf", "eabf_nocz", "eabf_harm", "hist", "sabf", "twin"):
         run_damage_config(run, vsim, d, quick, model, cfgname)
 
@@ -989,7 +1098,7 @@ def run_damage_config(run, vsim, d, quick, model, cfgname):
                       {"kind": "load", "format": "text", "config": cfgname, "cut": n})
         return
     if quick:
-        offs = set(r.sample(range(n), min(n, 90 if cfgname in ("grid", "extra") else 45)))
+        offs = set(r.sample(range(n), min(n, 60 if cfgname in ("grid", "extra") else 30)))
         for a, b, kw in obj_blocks:
             offs |= {a, a + 1, b - 1, b, b + 1, (a + b) // 2}
         for m in re.finditer(rb"grid_parameters|hills_energy|\ngrid\n|\}\n [-0-9]", text):
@@ -1040,7 +1149,7 @@ def run_damage_config(run, vsim, d, quick, model, cfgname):
         for m in re.finditer(rb"[\x01-\x20]\x00{7}[a-z_]{3,22}", binary):
             if struct.unpack("<Q", binary[m.start():m.start() + 8])[0] == m.end() - m.start() - 8:
                 boffs |= set(range(max(5, m.start() - 1), min(nb, m.end() + 9)))
-        cap = 150 if cfgname in ("grid", "extra") else 230
+        cap = 100 if cfgname in ("grid", "extra") else 160
         if len(boffs) > cap:
             # a sample of them; the thorough tier takes every offset
             boffs = set(r.sample(sorted(boffs), cap)) | set(range(max(5, nb - 16), nb))
